@@ -323,6 +323,55 @@ Proof.
 Qed.
 
 (* ------------------------------------------------------------------ *)
+(* the API view: a pending job has passed arbitration iff it is annotated *)
+(* ------------------------------------------------------------------ *)
+Definition vw (V : bool) (s : ast) : ast := if V then annot_view s else s.
+
+Lemma annot_view_set_job st j' : annot_view (set_job st j') = set_job (annot_view st) (annot_job j').
+Proof.
+  unfold annot_view, set_job. cbn [a_pods a_wls a_jobs]. f_equal. rewrite !map_map.
+  apply map_ext. intro x. cbn [annot_job j_id]. destruct (j_id x =? j_id j'); reflexivity.
+Qed.
+
+Lemma find_job_annot st jid j :
+  find_job st jid = Some j -> find_job (annot_view st) jid = Some (annot_job j).
+Proof.
+  unfold find_job, annot_view. cbn [a_jobs]. induction (a_jobs st) as [|x l IH]; cbn [find map]; [discriminate|].
+  cbn [annot_job j_id]. destruct (j_id x =? jid); [intro H; inversion H; reflexivity|exact IH].
+Qed.
+
+Lemma avail_annot_le j : avail true (annot_job j) = true -> avail true j = true.
+Proof.
+  unfold avail, annot_job. cbn. destruct (j_api j); cbn; [|auto].
+  destruct (j_phase j =? 1); cbn; [auto|]. destruct (j_phase j =? 0); cbn; [|auto].
+  destruct (j_passed j); cbn; [intros _; apply orb_true_r|discriminate].
+Qed.
+
+Lemma has_job_annot_le st v : has_job true (annot_view st) v = true -> has_job true st v = true.
+Proof.
+  unfold has_job, annot_view. cbn [a_jobs]. intro H. apply existsb_exists in H.
+  destruct H as [x [Hx H]]. apply in_map_iff in Hx. destruct Hx as [y [<- Hy]].
+  apply andb_true_iff in H. destruct H as [Ha Hp]. apply existsb_exists. exists y.
+  split; [exact Hy|]. rewrite (avail_annot_le y Ha). exact Hp.
+Qed.
+
+Lemma mo_annot_le st sel p : mo (annot_view st) sel p <= mo st sel p.
+Proof.
+  unfold mo. cbn [annot_view a_pods]. apply countb_le. intros v _ H.
+  apply andb_true_iff in H. destruct H as [H Hne]. apply andb_true_iff in H. destruct H as [Hs Hm].
+  unfold migrating in *. apply andb_true_iff in Hm. destruct Hm as [He Hj].
+  rewrite Hs, He, Hne, (has_job_annot_le st v Hj). reflexivity.
+Qed.
+
+Lemma uo_annot_le st sel p : uo (annot_view st) sel p <= uo st sel p.
+Proof.
+  unfold uo. cbn [annot_view a_pods]. apply countb_le. intros v _ H.
+  apply andb_true_iff in H. destruct H as [Hs H]. rewrite Hs. cbn [andb].
+  apply orb_true_iff in H. apply orb_true_iff. destruct H as [H|H]; [left; exact H|right].
+  apply andb_true_iff in H. destruct H as [Hj Hne]. rewrite (has_job_annot_le st v Hj), Hne. reflexivity.
+Qed.
+
+(* ------------------------------------------------------------------ *)
 (* one job of a round keeps every budget                                *)
 (* ------------------------------------------------------------------ *)
 Lemma within_refl L m : within L m m.
@@ -339,26 +388,43 @@ Section Step.
   Let st' := arbitrate_one c f st jid.
 
   (* generic shape: a selection whose filter bounds the measure over the other pods *)
-  Lemma step_measure sel L :
+  Lemma step_measure sel L V :
     (forall p, In p (a_pods st) -> sel p = true ->
                nonretryable c st p = true -> retryable c true st p = true -> mo st sel p + 1 <= L) ->
-    within L (measure st sel) (measure st' sel).
+    within L (measure (vw V st) sel) (measure (vw V st') sel).
   Proof.
     intro Hfilter. subst st'.
     destruct (arbitrate_one_outcome c f st jid) as [|j Hf Hw Ha Hs Hne Hp|j p w Hf Hw Hp Hn].
     - apply within_refl.
     - destruct (pod_of st j) as [p|] eqn:Ep.
       + destruct Hp as [Hn Hr]. destruct (pod_of_some _ _ _ Ep) as [Hin _].
-        pose proof (measure_pass_some st j p sel Hwf Ep) as Hm.
-        destruct (sel p) eqn:Es.
-        * specialize (Hfilter p Hin Es Hn Hr). unfold within. lia.
-        * pose proof (mo_le st sel p). unfold within. lia.
-      + apply within_le, measure_pass_none; assumption.
-    - apply within_le. eapply measure_fail; eassumption.
+        destruct V; cbn [vw].
+        * rewrite annot_view_set_job.
+          change (annot_job (mark_passed j)) with (mark_passed (annot_job j)).
+          pose proof (measure_pass_some (annot_view st) (annot_job j) p sel Hwf Ep) as Hm.
+          pose proof (mo_annot_le st sel p).
+          destruct (sel p) eqn:Es.
+          -- specialize (Hfilter p Hin Es Hn Hr). unfold within. lia.
+          -- pose proof (mo_le (annot_view st) sel p). unfold within. lia.
+        * pose proof (measure_pass_some st j p sel Hwf Ep) as Hm.
+          destruct (sel p) eqn:Es.
+          -- specialize (Hfilter p Hin Es Hn Hr). unfold within. lia.
+          -- pose proof (mo_le st sel p). unfold within. lia.
+      + destruct V; cbn [vw].
+        * rewrite annot_view_set_job.
+          change (annot_job (mark_passed j)) with (mark_passed (annot_job j)).
+          apply within_le, (measure_pass_none (annot_view st) (annot_job j) sel Hwf Ep).
+        * apply within_le, measure_pass_none; assumption.
+    - destruct V; cbn [vw].
+      + rewrite annot_view_set_job.
+        change (annot_job (mark_failed w j)) with (mark_failed w (annot_job j)).
+        apply within_le. eapply measure_fail. apply find_job_annot. eassumption.
+      + apply within_le. eapply measure_fail; eassumption.
   Qed.
 
-  Lemma step_global :
-    limited (c_maxg c) = true -> within (c_maxg c) (measure st sel_all) (measure st' sel_all).
+  Lemma step_global V :
+    limited (c_maxg c) = true ->
+    within (c_maxg c) (measure (vw V st) sel_all) (measure (vw V st') sel_all).
   Proof.
     intro Hl. apply step_measure. intros p Hin _ _ Hr.
     unfold retryable in Hr. repeat (apply andb_true_iff in Hr; destruct Hr as [Hr ?]).
@@ -366,9 +432,9 @@ Section Step.
     pose proof (dom_global st p Hwf). lia.
   Qed.
 
-  Lemma step_node k :
+  Lemma step_node V k :
     limited (c_maxnode c) = true -> k <> 0 ->
-    within (c_maxnode c) (measure st (sel_node k)) (measure st' (sel_node k)).
+    within (c_maxnode c) (measure (vw V st) (sel_node k)) (measure (vw V st') (sel_node k)).
   Proof.
     intros Hl Hk. apply step_measure. intros p Hin Hs _ Hr.
     unfold sel_node in Hs. apply Z.eqb_eq in Hs.
@@ -380,9 +446,9 @@ Section Step.
     rewrite mo_other_pod. subst k. unfold sel_node. lia.
   Qed.
 
-  Lemma step_ns k :
+  Lemma step_ns V k :
     limited (c_maxns c) = true ->
-    within (c_maxns c) (measure st (sel_ns k)) (measure st' (sel_ns k)).
+    within (c_maxns c) (measure (vw V st) (sel_ns k)) (measure (vw V st') (sel_ns k)).
   Proof.
     intros Hl. apply step_measure. intros p Hin Hs _ Hr.
     unfold sel_ns in Hs. apply Z.eqb_eq in Hs.
@@ -420,9 +486,9 @@ Section Step.
     - apply Z.leb_gt in E. lia.
   Qed.
 
-  Lemma step_wl ns w :
+  Lemma step_wl V ns w :
     w <> 0 ->
-    within (max_mig c st w) (measure st (sel_wl ns w)) (measure st' (sel_wl ns w)).
+    within (max_mig c st w) (measure (vw V st) (sel_wl ns w)) (measure (vw V st') (sel_wl ns w)).
   Proof.
     intros Hw. apply step_measure. intros p Hin Hs _ Hr.
     unfold sel_wl in Hs. apply andb_true_iff in Hs. destruct Hs as [Hns Hwl].
@@ -431,25 +497,42 @@ Section Step.
     subst ns w. apply (f_wl_facts p Hw Hr).
   Qed.
 
-  Lemma step_unavail ns w :
+  Lemma step_unavail V ns w :
     w <> 0 ->
-    within (max_un c st w) (unavail st (sel_wl ns w)) (unavail st' (sel_wl ns w)).
+    within (max_un c st w) (unavail (vw V st) (sel_wl ns w)) (unavail (vw V st') (sel_wl ns w)).
   Proof.
     intros Hw. subst st'.
     destruct (arbitrate_one_outcome c f st jid) as [|j Hf Hwt Ha Hs Hne Hp|j p w' Hf Hwt Hp Hn].
     - apply within_refl.
     - destruct (pod_of st j) as [p|] eqn:Ep.
       + destruct Hp as [Hn Hr].
-        pose proof (unavail_pass_some st j p (sel_wl ns w) Hwf Ep) as Hm.
-        destruct (sel_wl ns w p) eqn:Es.
-        * unfold sel_wl in Es. apply andb_true_iff in Es. destruct Es as [Hns Hwl].
+        assert (Hbound : sel_wl ns w p = true -> uo st (sel_wl ns w) p + 1 <= max_un c st w).
+        { intro Es. unfold sel_wl in Es. apply andb_true_iff in Es. destruct Es as [Hns Hwl].
           apply Z.eqb_eq in Hns. apply Z.eqb_eq in Hwl.
           unfold retryable in Hr. apply andb_true_iff in Hr. destruct Hr as [_ Hr].
-          subst ns w. pose proof (f_wl_facts p Hw Hr) as [_ Hu]. cbv zeta in Hu.
-          unfold within. lia.
-        * pose proof (uo_le st (sel_wl ns w) p). unfold within. lia.
-      + apply within_le, unavail_pass_none; assumption.
-    - apply within_le. eapply unavail_fail; eassumption.
+          subst ns w. pose proof (f_wl_facts p Hw Hr) as [_ Hu]. exact Hu. }
+        destruct V; cbn [vw].
+        * rewrite annot_view_set_job.
+          change (annot_job (mark_passed j)) with (mark_passed (annot_job j)).
+          pose proof (unavail_pass_some (annot_view st) (annot_job j) p (sel_wl ns w) Hwf Ep) as Hm.
+          pose proof (uo_annot_le st (sel_wl ns w) p).
+          destruct (sel_wl ns w p) eqn:Es.
+          -- specialize (Hbound eq_refl). unfold within. lia.
+          -- pose proof (uo_le (annot_view st) (sel_wl ns w) p). unfold within. lia.
+        * pose proof (unavail_pass_some st j p (sel_wl ns w) Hwf Ep) as Hm.
+          destruct (sel_wl ns w p) eqn:Es.
+          -- specialize (Hbound eq_refl). unfold within. lia.
+          -- pose proof (uo_le st (sel_wl ns w) p). unfold within. lia.
+      + destruct V; cbn [vw].
+        * rewrite annot_view_set_job.
+          change (annot_job (mark_passed j)) with (mark_passed (annot_job j)).
+          apply within_le, (unavail_pass_none (annot_view st) (annot_job j) (sel_wl ns w) Hwf Ep).
+        * apply within_le, unavail_pass_none; assumption.
+    - destruct V; cbn [vw].
+      + rewrite annot_view_set_job.
+        change (annot_job (mark_failed w' j)) with (mark_failed w' (annot_job j)).
+        apply within_le. eapply unavail_fail. apply find_job_annot. eassumption.
+      + apply within_le. eapply unavail_fail; eassumption.
   Qed.
 End Step.
 
@@ -474,29 +557,49 @@ Proof.
   apply IH. eapply wf_pods_eq; [apply arbitrate_one_pods|exact Hwf].
 Qed.
 
-Theorem round_on_limits c f order st :
-  wf_pods st -> wf_cfg c -> limits_hold c st (round_on c f order st).
+Theorem round_on_limits_v V c f order st :
+  wf_pods st -> wf_cfg c -> limits_hold c (vw V st) (vw V (round_on c f order st)).
 Proof.
-  intros Hwf Hcfg. repeat split.
-  - intro Hl. apply (round_on_within c f (fun s => measure s sel_all) (fun _ => c_maxg c)); auto.
+  intros Hwf Hcfg.
+  assert (HW : forall w, max_mig c (vw V st) w = max_mig c st w) by (destruct V; reflexivity).
+  repeat split.
+  - intro Hl. apply (round_on_within c f (fun s => measure (vw V s) sel_all) (fun _ => c_maxg c)); auto.
     intros s jid Hs. apply step_global; assumption.
   - intros k Hl Hk.
-    apply (round_on_within c f (fun s => measure s (sel_node k)) (fun _ => c_maxnode c)); auto.
+    apply (round_on_within c f (fun s => measure (vw V s) (sel_node k)) (fun _ => c_maxnode c)); auto.
     intros s jid Hs. apply step_node; assumption.
   - intros k Hl.
-    apply (round_on_within c f (fun s => measure s (sel_ns k)) (fun _ => c_maxns c)); auto.
+    apply (round_on_within c f (fun s => measure (vw V s) (sel_ns k)) (fun _ => c_maxns c)); auto.
     intros s jid Hs. apply step_ns; assumption.
-  - intros ns w Hw.
-    apply (round_on_within c f (fun s => measure s (sel_wl ns w)) (fun s => max_mig c s w)); auto.
+  - intros ns w Hw. rewrite HW.
+    apply (round_on_within c f (fun s => measure (vw V s) (sel_wl ns w)) (fun s => max_mig c s w)); auto.
     + intros s s' E. unfold max_mig. rewrite (replicas_of_eq s s' w E). reflexivity.
     + intros s jid Hs. apply step_wl; assumption.
 Qed.
 
-Theorem round_on_unavail c f order st :
-  wf_pods st -> wf_cfg c -> unavail_holds c st (round_on c f order st).
+Theorem round_on_unavail_v V c f order st :
+  wf_pods st -> wf_cfg c -> unavail_holds c (vw V st) (vw V (round_on c f order st)).
 Proof.
   intros Hwf Hcfg ns w Hw.
-  apply (round_on_within c f (fun s => unavail s (sel_wl ns w)) (fun s => max_un c s w)); auto.
+  replace (max_un c (vw V st) w) with (max_un c st w) by (destruct V; reflexivity).
+  apply (round_on_within c f (fun s => unavail (vw V s) (sel_wl ns w)) (fun s => max_un c s w)); auto.
   - intros s s' E. unfold max_un. rewrite (replicas_of_eq s s' w E). reflexivity.
   - intros s jid Hs. apply step_unavail; assumption.
 Qed.
+
+(* the mechanism view (map or annotation) and the API view (annotation only) *)
+Theorem round_on_limits c f order st :
+  wf_pods st -> wf_cfg c -> limits_hold c st (round_on c f order st).
+Proof. exact (round_on_limits_v false c f order st). Qed.
+
+Theorem round_on_unavail c f order st :
+  wf_pods st -> wf_cfg c -> unavail_holds c st (round_on c f order st).
+Proof. exact (round_on_unavail_v false c f order st). Qed.
+
+Theorem round_on_limits_annot c f order st :
+  wf_pods st -> wf_cfg c -> limits_hold c (annot_view st) (annot_view (round_on c f order st)).
+Proof. exact (round_on_limits_v true c f order st). Qed.
+
+Theorem round_on_unavail_annot c f order st :
+  wf_pods st -> wf_cfg c -> unavail_holds c (annot_view st) (annot_view (round_on c f order st)).
+Proof. exact (round_on_unavail_v true c f order st). Qed.
